@@ -46,7 +46,9 @@ def run(ctx):
         lines += ["counts\tsubset\t%s\t%s" % (sh_str(s), sh_str(t)), "counts\tsubset\t%s\t%s" % (sh_str(t), sh_str(s)),
                   "counts\tsubset\t%s\t%s" % (sh_str(s), sh_str(s)),
                   "counts\tmerger\t%s\t%s" % (sh_str(s), sh_str(t)), "counts\tmerger\t%s\t%s" % (sh_str(s), sh_str(s))]
-    ctx.correspond(lines, "call counters vs twins on random related deep pairs", nt)
+    for a, b in vlib.structured_pairs(stride=1 if ctx.tier != 'quick' else 2):
+        lines += ["counts\tsubset\t%s\t%s" % (sh_str(a), sh_str(b)), "counts\tmerger\t%s\t%s" % (sh_str(a), sh_str(b))]
+    ctx.correspond(lines, "call counters vs twins on random related deep pairs + structured level-2 pairs", nt)
     docs = [d for d in vlib.doc_pool_small()[::3] + list(vlib.BASE_DOCS) if vlib.nodup_doc(d)]
     docs += [vlib.rand_doc(ctx.rng, 5) for _ in range(1500)]
     docs += [nest_tuple(d) for d in range(1, 12)] + [nest_obj(d) for d in range(1, 8)] + [nest_arrobj(d) for d in range(1, 7)]
